@@ -2,7 +2,7 @@
    ExtrOcamlBasic only: bool/option/list/prod/unit/sumbool map to OCaml's; Z, N,
    positive and nat stay Coq datatypes.  No Extract Constant. *)
 From Coq Require Import ExtrOcamlBasic ZArith List.
-From AxV Require Import Bits Outcome Codes Iced State Rt Mem Trace Exec Sys StackInit Elf Machine RegFile ISA CodeSem.
+From AxV Require Import Bits Outcome Codes Iced State Rt Mem Trace TraceRender Exec Sys StackInit Elf Machine RegFile ISA CodeSem.
 Extraction Language OCaml.
-Separate Extraction ISA.isa_exec CodeSem.code_sem CodeSem.pinned_forms Mem.mem_read_executable_bytes RegFile.spec_rop RegFile.run_spec Iced.all_views State.set_regs Machine.run_op State.empty_state Iced.gpr64_list Iced.xmm_list
+Separate Extraction TraceRender.render_trace_indents TraceRender.render_stack_indents ISA.isa_exec CodeSem.code_sem CodeSem.pinned_forms Mem.mem_read_executable_bytes RegFile.spec_rop RegFile.run_spec Iced.all_views State.set_regs Machine.run_op State.empty_state Iced.gpr64_list Iced.xmm_list
   State.regs Z.of_nat Z.to_nat Z.add Z.mul Z.div Z.modulo Z.eqb Z.ltb Z.leb Z.pow Z.land Z.lor.
